@@ -57,6 +57,13 @@ def main():
         sh(["git", "-C", "/repo", "worktree", "add", "-q", "--detach", wt, "HEAD"])
         try:
             rc, out = sh(["git", "apply", patch], cwd=wt)
+            if rc != 0:
+                rc, out = sh(["git", "apply", "--3way", patch], cwd=wt)
+                sh(["git", "reset", "-q"], cwd=wt)
+                sh("git diff > /tmp/seed_rebased_%d.diff" % os.getpid(), cwd=wt)
+                patch_for_revert = "/tmp/seed_rebased_%d.diff" % os.getpid()
+            else:
+                patch_for_revert = patch
             meta["patch_applies"] = rc == 0
             rc, out = sh("go build ./...", cwd=wt)
             meta["builds"] = rc == 0
@@ -79,7 +86,7 @@ def main():
             rc, out = sh("go test -vet=off -count=1 -run '%s' ./%s/ 2>&1 | tail -40" % (runre, a.demodir), cwd=wt, timeout=600)
             meta["demo_fails_with_patch"] = "FAIL" in out
             meta["demo_output_with_patch"] = out[-800:]
-            sh(["git", "apply", "-R", patch], cwd=wt)
+            sh(["git", "checkout", "--", "."], cwd=wt)
             rc, out = sh("go test -vet=off -count=1 -run '%s' ./%s/ 2>&1 | tail -15" % (runre, a.demodir), cwd=wt, timeout=600)
             meta["demo_passes_on_clean_tree"] = "FAIL" not in out and "ok" in out
             if not meta["demo_passes_on_clean_tree"]:
@@ -92,6 +99,13 @@ def main():
     if out.strip():
         print("refusing: /repo is not clean"); return 2
     rc, out = sh(["git", "-C", "/repo", "apply", patch])
+    if rc != 0:   # the tree moved on (later fix: commits): try a three-way merge of the seeded change
+        rc, out = sh(["git", "-C", "/repo", "apply", "--3way", patch])
+        sh(["git", "-C", "/repo", "reset", "-q"])
+        meta["applied_with_3way_on"] = sh(["git", "-C", "/repo", "log", "--format=%h", "-1"])[1].strip()
+    if rc != 0:
+        sh(["git", "-C", "/repo", "checkout", "--", "."])
+        print("patch does not apply to the current /repo:", out[-300:]); return 2
     saved = {}
     for c in checks:   # evidence files must only ever come from runs on the unchanged tree: keep and restore them
         ep = os.path.join(V, "evidence", c + ".json")
